@@ -1,6 +1,7 @@
 package dataset
 
 import (
+	"bytes"
 	"encoding/binary"
 	"encoding/json"
 	"fmt"
@@ -179,6 +180,19 @@ func flushDeletes(bs store.BadgerStore, ops *compactionInstruction, finalFlush b
 		}
 		// fmt.Println("deleted", len(all), "keys")
 		for i, key := range ops.RewriteKeys {
+			// the entity may have been written after the compaction snapshot was taken: only move the
+			// latest pointer if it still points at the version that is being removed
+			item, errGet := txn.Get(key)
+			if errGet != nil {
+				return errGet
+			}
+			current, errGet := item.ValueCopy(nil)
+			if errGet != nil {
+				return errGet
+			}
+			if !bytes.Equal(current, ops.RewriteExpected[i]) {
+				continue
+			}
 			err2 := txn.Set(key, ops.RewriteValues[i])
 			if err2 != nil {
 				return err2
